@@ -9,14 +9,19 @@ package asn1parser
 
 // ---- the reader abstraction
 
+//@ spec func readerOK(r ref) bool = r != nil && (typeis(r, *hashing.HashingReaderWrapper) ==> wrapperOK(as(r, *hashing.HashingReaderWrapper))) && (typeis(r, *bufio.Reader) ==> as(r, *bufio.Reader) != nil)
+//@ spec func wrapperOK(t ref) bool = t != nil && t.Reader != nil && (t.CalculateSignature ==> t.hash != nil)
+
 //@ func Asn1Reader.Read
 //@   props C07
+//@   requires readerOK(self)
 //@   assigns *p, X.stream
 //@   ensures n_range: 0 <= r0 && r0 <= len(p)
 //@   ensures progress: err == nil && len(p) > 0 ==> r0 > 0
 
 //@ func Asn1Reader.Peek
 //@   props C07
+//@   requires readerOK(self)
 //@   assigns X.stream
 //@   ensures err == nil ==> len(ret) == n && n >= 0 && n <= 4096
 
@@ -34,7 +39,7 @@ package asn1parser
 
 //@ func ReadExpectedBytesRecursive
 //@   props C07
-//@   requires reader != nil && byteArray != nil
+//@   requires readerOK(reader) && byteArray != nil
 //@   requires 0 <= currentPosition && currentPosition <= byteSize && len(*byteArray) == byteSize
 //@   requires[C07,C17] bounded: byteSize <= 81937
 //@   decreases byteSize - currentPosition
@@ -42,7 +47,7 @@ package asn1parser
 
 //@ func ReadExpectedBytes
 //@   props C07
-//@   requires reader != nil
+//@   requires readerOK(reader)
 //@   requires nonneg: byteSize >= 0
 //@   requires[C07,C17] bounded: byteSize <= 81937
 //@   assigns E.uint8, X.stream
@@ -50,7 +55,7 @@ package asn1parser
 
 //@ func PeekExpectedBytes
 //@   props C07
-//@   requires reader != nil
+//@   requires readerOK(reader)
 //@   requires 0 <= byteSize && 0 <= offset
 //@   requires[C07,C17] bounded: byteSize <= 81937
 //@   assigns E.uint8, X.stream
@@ -60,60 +65,60 @@ package asn1parser
 
 //@ func ReadTag
 //@   props C07
-//@   requires reader != nil
+//@   requires readerOK(reader)
 //@   assigns E.uint8, X.stream
 //@   ensures err == nil ==> ret != nil
 
 //@ func PeekTag
 //@   props C07
-//@   requires reader != nil && 0 <= offset 
+//@   requires readerOK(reader) && 0 <= offset 
 //@   assigns E.uint8, X.stream
 //@   ensures err == nil ==> ret != nil && offset < 4096
 
 //@ func ReadUint8
 //@   props C07
-//@   requires reader != nil
+//@   requires readerOK(reader)
 //@   assigns E.uint8, X.stream
 
 //@ func PeekUint8
 //@   props C07
-//@   requires reader != nil && 0 <= offset
+//@   requires readerOK(reader) && 0 <= offset
 //@   assigns E.uint8, X.stream
 //@   ensures err == nil ==> offset < 4096
 
 //@ func ReadExpectedBigInt
 //@   props C07
-//@   requires reader != nil && 0 <= sizeOfLength && sizeOfLength <= 15
+//@   requires readerOK(reader) && 0 <= sizeOfLength && sizeOfLength <= 15
 //@   assigns E.uint8, X.stream
 //@   ensures err == nil ==> ret != nil && 0 <= big(ret) && big(ret) < pow256(sizeOfLength)
 
 //@ func PeekExpectedBigInt
 //@   props C07
-//@   requires reader != nil && 0 <= sizeOfLength && sizeOfLength <= 15 && 0 <= offset
+//@   requires readerOK(reader) && 0 <= sizeOfLength && sizeOfLength <= 15 && 0 <= offset
 //@   assigns E.uint8, X.stream
 //@   ensures err == nil ==> ret != nil && 0 <= big(ret) && big(ret) < pow256(sizeOfLength)
 
 //@ func ReadLength
 //@   props C07
-//@   requires reader != nil
+//@   requires readerOK(reader)
 //@   assigns E.uint8, X.stream
 //@   ensures err == nil ==> ret != nil && 1 <= ret.LengthSize && ret.LengthSize <= 16 && 0 <= ret.Length && ret.Length < pow256(ret.LengthSize - 1) + 128
 
 //@ func PeekLength
 //@   props C07
-//@   requires reader != nil && 0 <= offset
+//@   requires readerOK(reader) && 0 <= offset
 //@   assigns E.uint8, X.stream
 //@   ensures err == nil ==> ret != nil && 1 <= ret.LengthSize && ret.LengthSize <= 16 && 0 <= ret.Length && ret.Length < pow256(ret.LengthSize - 1) + 128
 
 //@ func ReadTagLength
 //@   props C07
-//@   requires reader != nil
+//@   requires readerOK(reader)
 //@   assigns E.uint8, X.stream
 //@   ensures err == nil ==> ret != nil && 1 <= ret.Length.LengthSize && ret.Length.LengthSize <= 16 && 0 <= ret.Length.Length
 
 //@ func PeekTagLength
 //@   props C07
-//@   requires reader != nil && 0 <= offset 
+//@   requires readerOK(reader) && 0 <= offset 
 //@   assigns E.uint8, X.stream
 //@   ensures err == nil ==> ret != nil && 1 <= ret.Length.LengthSize && ret.Length.LengthSize <= 16 && 0 <= ret.Length.Length && offset < 4096
 
@@ -171,37 +176,38 @@ package asn1parser
 
 //@ func ReadTVLBytesWithLimit
 //@   props C07
-//@   requires reader != nil
+//@   requires readerOK(reader)
 //@   requires 0 <= tagLength.Length.Length && 1 <= tagLength.Length.LengthSize && tagLength.Length.LengthSize <= 16
 //@   requires[C07,C17] limit: maxLength <= 81920
 //@   assigns E.uint8, X.stream
 //@   ensures err == nil ==> len(ret) == tagLength.Length.Length + tagLength.Length.LengthSize + 1
 
 //@ func ReadStruct
-//@   props C07
-//@   requires reader != nil
+//@   props C07 C06
+//@   requires readerOK(reader)
+//@   requires[C06] target_zeroed: zeroed(value)
 //@   assigns *value, E.uint8, X.stream
 
 //@ func ReadUtcTime
 //@   props C07
-//@   requires reader != nil
+//@   requires readerOK(reader)
 //@   assigns E.uint8, X.stream
 //@   ensures err == nil ==> ret != nil
 
 //@ func ParseBitString
 //@   props C07
-//@   requires reader != nil
+//@   requires readerOK(reader)
 //@   assigns E.uint8, X.stream
 //@   ensures err == nil ==> ret != nil
 
 //@ func ParseOctetString
 //@   props C07
-//@   requires reader != nil
+//@   requires readerOK(reader)
 //@   assigns E.uint8, X.stream
 
 //@ func ReadBigInt
 //@   props C07
-//@   requires reader != nil
+//@   requires readerOK(reader)
 //@   assigns E.uint8, X.stream
 //@   ensures err == nil ==> ret != nil
 
